@@ -39,13 +39,17 @@ inductive Sec
   | psk (id : Nat)                               -- an externally provisioned pre-shared key secret
   | epoch (init commit psk : Sec) (ctx : Nat)    -- key schedule: joiner / epoch secret, injective by construction
   | initOf (e : Sec)                             -- init secret derived from an epoch secret
+  | ext (n : Nat)                                -- the KEM shared secret of the external commit that ends epoch `n`
+                                                 -- (= its init secret, `InitSecret::encode_for_external`)
   deriving DecidableEq, Repr, Inhabited
 
-/-- private keys: of a tree node (by stamp) or the init key of the key package whose leaf node carries the
-HPKE stamp -/
+/-- private keys: of a tree node (by stamp), the init key of the key package whose leaf node carries the
+HPKE stamp, or the external private key of the epoch whose epoch secret is `e` (derived from the
+`external_secret`, published as `external_pub` in the GroupInfo) -/
 inductive Key
   | node (stamp : Nat)
   | init (stamp : Nat)
+  | ext (e : Sec)
   deriving DecidableEq, Repr, Inhabited
 
 /-- `n`-fold `DeriveSecret(·, "path")` -/
@@ -88,10 +92,13 @@ structure WelcomeSeal where
   pathSecret : Option Sec
   deriving DecidableEq, Repr
 
-/-- what a commit puts on the wire, annotated with the secrets inside the ciphertexts -/
+/-- what a commit puts on the wire, annotated with the secrets inside the ciphertexts.  `ext`: the
+`ExternalInit` proposal of an external commit — `(e, s)`: the KEM output towards the external public key of the
+epoch with epoch secret `e`, carrying the shared secret `s` -/
 structure Transcript where
   pathSeals : List PathSeal
   welcome : List WelcomeSeal
+  ext : Option (Sec × Sec) := none
   deriving DecidableEq, Repr
 
 /-- attach the path-secret chain `s, path s, path (path s), …` and the announced keys to `EncapOut.seals` -/
@@ -107,14 +114,21 @@ def pathSealsOf (o : EncapOut) (s0 : Sec) : List PathSeal :=
 /-- every ciphertext as `(recipient private key, plaintext secret)` -/
 def Transcript.seals (tr : Transcript) : List (Key × Sec) :=
   (tr.pathSeals.flatMap fun ps => ps.recips.filterMap fun r => r.2.map fun k => (Key.node k, ps.secret))
-  ++ tr.welcome.flatMap fun ws =>
+  ++ ((tr.welcome.flatMap fun ws =>
       (Key.init ws.initKey, ws.joiner) :: (match ws.pathSecret with
         | some s => [(Key.init ws.initKey, s)]
-        | none => [])
+        | none => []))
+  ++ match tr.ext with
+    | some (e, s) => [(Key.ext e, s)]
+    | none => [])
 
-/-- key generation: the node key pair derived from each path secret -/
+/-- key generation: the node key pair derived from each path secret; the external key pair derived from the
+epoch secret (through the `external_secret`) -/
 def Transcript.gens (tr : Transcript) : List (Sec × Key) :=
-  tr.pathSeals.map fun ps => (ps.secret, Key.node ps.key)
+  (tr.pathSeals.map fun ps => (ps.secret, Key.node ps.key))
+  ++ match tr.ext with
+    | some (e, _) => [(e, Key.ext e)]
+    | none => []
 
 /-- a followed party: identity stamp, private key slots, the epoch it is in and that epoch's secret -/
 structure Member where
@@ -173,8 +187,8 @@ def chainMatches (seals : List PathSeal) (idx : Nat) (opened : Sec) : Bool :=
   (seals.drop idx).zipIdx.all fun x => x.1.secret == pathN x.2 opened
 
 /-- a receiver of a commit with a path: `decap` for the position, then really open the ciphertext with the
-key in the slot, derive upwards and run the key schedule on its own init secret -/
-def recvPath (t1 : Tree) (o : EncapOut) (seals : List PathSeal) (sender : Nat) (e : Edits)
+key in the slot, derive upwards and run the key schedule on the init secret `init` -/
+def recvPathI (init : Sec) (t1 : Tree) (o : EncapOut) (seals : List PathSeal) (sender : Nat) (e : Edits)
     (added : List Nat) (psk : Sec) (ctx : Nat) (m : Member) : Except GErr Member :=
   let prov := provisionalPriv t1 m.priv (ownUpdate e m.priv.self)
   match decap o.tree prov sender o.pathKeys added with
@@ -191,10 +205,15 @@ def recvPath (t1 : Tree) (o : EncapOut) (seals : List PathSeal) (sender : Nat) (
           if chainMatches seals idx ps.secret then
             let cs := pathN (countSome (o.pathKeys.drop c)) ps.secret
             .ok { m with priv := d.priv, epoch := m.epoch + 1,
-                         secret := .epoch (.initOf m.secret) cs psk ctx }
+                         secret := .epoch init cs psk ctx }
           else .error (.tree .pubKeyMismatch)
         else .error .cannotOpen
       | _, _ => .error .cannotOpen
+
+/-- … of a member's commit: the init secret is the one derived from the receiver's own epoch secret -/
+def recvPath (t1 : Tree) (o : EncapOut) (seals : List PathSeal) (sender : Nat) (e : Edits)
+    (added : List Nat) (psk : Sec) (ctx : Nat) (m : Member) : Except GErr Member :=
+  recvPathI (.initOf m.secret) t1 o seals sender e added psk ctx m
 
 /-- the group secrets for the joiner at leaf `self` (key package leaf node `L`) -/
 def welcomeFor (o : Option EncapOut) (seals : List PathSeal) (sender : Nat) (E : Sec) (self : Nat)
@@ -305,5 +324,79 @@ def GroupWorld.commit (w : GroupWorld) (sender : Nat) (e : Edits) (newLeaf : Opt
     | some nl => commitPath w sender e nl fresh psk ctx deliverTo cm added t1
     | none => commitNoPath w sender e psk ctx deliverTo cm added t1
   | _ => .error .senderRemoved
+
+/-! ### external commits (RFC 9420 §12.4.3.2; `group/external_commit.rs`, `proposal_filter/filtering_common.rs`
+`apply_proposals_from_new_member`, `key_schedule.rs` `InitSecret::{encode,decode}_for_external`)
+
+A party that is not a member takes the GroupInfo (ratchet tree, `external_pub`) of a current member `gi` and
+commits: `ExternalInit` (KEM output towards `external_pub`), optionally one `Remove` (of its own old leaf —
+re-sync), PSKs, and always an update path.
+
+* tree: the proposals are applied by `batch_edit` (which trims), THEN the new member's leaf node is inserted by
+  `add_leaf(leaf, start = None)` — leftmost blank leaf, unmerged at its non-blank ancestors (`insert_external_leaf`);
+  no second trim.  The committer inserts the leaf node `L0` it generated, then `encap` replaces it by `nl` (fresh
+  HPKE key); receivers insert the update path's leaf node `nl` (uniqueness check `conflicts t1 nl`) and
+  `apply_update_path` writes it again — the two provisional trees differ only in the content of that leaf, which
+  neither `provisional_private_tree` nor `decap` reads: the model lets the receivers work on the committer's
+  provisional tree and checks `apply_update_path` against `encap` as for a member's commit
+  (`Props/C01Group.lean`, `external_commit_receivers_tree`: the receivers' own tree gives the same results).
+* `indexes_of_added_kpkgs` is empty (Adds are not allowed): nothing is excluded from the resolutions, and the new
+  leaf never is in the resolution of a copath node of its own direct path.
+* key schedule: the init secret is the KEM shared secret `Sec.ext n`, not `initOf` of the old epoch secret.  The
+  joiner knows it (it ran the encapsulation); a member derives the external private key from its epoch secret
+  and decapsulates — `Transcript.ext`.  There is no Welcome.
+* the joiner holds the private keys of its whole filtered direct path (`o.slots`) and the new epoch secret.
+-/
+
+def noEdits : Edits := ⟨[], [], []⟩
+
+/-- the proposals of an external commit that touch the tree: at most one Remove -/
+def extEdits (remove : Option Nat) : Edits := ⟨remove.toList, [], []⟩
+
+/-- does this followed party process the external commit?  Current members other than the removed one that it is
+delivered to -/
+def processesExt (w : GroupWorld) (remove : Option Nat) (deliverTo : List Nat) (m : Member) : Bool :=
+  m.current w && !(remove == some m.priv.self) && deliverTo.contains m.priv.self
+
+/-- how a followed party moves through an external commit: it decapsulates the KEM output with the external key
+of ITS epoch secret (which must be the one the joiner encapsulated to), then as for any commit with a path -/
+def advExt (w : GroupWorld) (remove : Option Nat) (deliverTo : List Nat) (t1x : Tree) (o : EncapOut)
+    (seals : List PathSeal) (self : Nat) (psk : Sec) (ctx : Nat) (eOld : Sec) (m : Member) :
+    Except GErr Member :=
+  if !processesExt w remove deliverTo m then .ok m
+  else if m.secret ≠ eOld then .error .cannotOpen
+  else recvPathI (.ext w.epoch) t1x o seals self noEdits [] psk ctx m
+
+/-- One external commit.  `gi`: the leaf of the current member whose GroupInfo is used; `remove`: the leaf
+removed by the commit's Remove proposal, if any; `L0`: the leaf node the joiner inserts before `encap`; `nl`: the
+leaf node of its update path; the rest as for `GroupWorld.commit`.  The joiner is appended as a followed party. -/
+def GroupWorld.externalCommit (w : GroupWorld) (gi : Nat) (remove : Option Nat) (L0 nl : Leaf) (fresh : Nat)
+    (psk : Sec) (ctx : Nat) (deliverTo : List Nat) : Except GErr (GroupWorld × Transcript) :=
+  if !psk.isPskInput then .error .badPsk else
+  match w.sender? gi with
+  | none => .error .senderUnknown
+  | some gm =>
+  match batchEdit w.tree (extEdits remove) with
+  | .error x => .error (.tree x)
+  | .ok (_, t1) =>
+  match addLeaf t1 L0 0 with
+  | .error x => .error (.tree x)
+  | .ok (self, t1x) =>
+  if conflicts t1 nl then .error (.tree .duplicateLeafData) else
+  match encap t1x self nl [] fresh with
+  | .error x => .error (.tree x)
+  | .ok o =>
+    match applyUpdatePath t1x self nl o.pathKeys with
+    | .error x => .error (.tree x)
+    | .ok t' =>
+    if t' ≠ o.tree then .error .treeMismatch else
+    let seals := pathSealsOf o (.fresh w.epoch)
+    let E := Sec.epoch (.ext w.epoch) (pathN (countSome o.pathKeys) (.fresh w.epoch)) psk ctx
+    match mapE (advExt w remove deliverTo t1x o seals self psk ctx gm.secret) w.members with
+    | .error x => .error x
+    | .ok ms =>
+      .ok ({ tree := o.tree, epoch := w.epoch + 1,
+             members := ms ++ [{ id := nl.ident, priv := ⟨self, o.slots⟩, epoch := w.epoch + 1, secret := E }] },
+           { pathSeals := seals, welcome := [], ext := some (gm.secret, .ext w.epoch) })
 
 end MlsVerif.Group
